@@ -1,9 +1,27 @@
-(* Props/C20.v -- property C20 (statements proved so far; see DESIGN.md section 7 C20). *)
-From Coq Require Import NArith List Bool.
-From NRF Require Import Env.Radio Env.RadioFacts.
+(* Props/C20.v -- property C20 (rf24_lite honours the same link-level contract as RF24).  PARTIAL, see DESIGN.md
+   section 7: proved for the lite driver's model (Drv/Lite.v) are the accessor facts below, on top of the
+   radio/world theorems it shares with the full driver (STATUS is pre-command, exchanges never alter
+   configuration, every reachable world is well formed).  Delivery, send()/resend() outcomes, ACK payloads,
+   attribute encodings, pipe-0 restoration and the load_ack() clause are decided by the correspondence run on
+   mixed lite/full worlds and its contract checkers (corr/c20.py). *)
+From Coq Require Import ZArith NArith List Bool.
+From NRF Require Import Env.Radio Env.World Env.RadioFacts Env.WfFacts Drv.RF24 Drv.Lite Drv.LiteFacts.
 Import ListNotations.
 Local Open Scope N_scope.
-Theorem C20_status_is_pre_command : forall r cmd data,
-  hd 0 (snd (spi r (cmd :: data))) = status r.
+
+Theorem C20_status_is_pre_command : forall r cmd data, hd 0 (snd (spi r (cmd :: data))) = Radio.status r.
 Proof. exact spi_status_first. Qed.
 Print Assumptions C20_status_is_pre_command.
+
+(* update() caches the radio's STATUS as it was when the call was made (what pipe, tx_full, irq_* then decode) *)
+Theorem C20_update_caches_status : forall me d w,
+  exists d' w', l_update (WB me) d w = (Ok true, d', w') /\ d_in0 d' = Radio.status (get_radio w me).
+Proof. exact l_update_spec. Qed.
+Print Assumptions C20_update_caches_status.
+
+(* available() is True exactly when the RX FIFO of the lite driver's radio holds a payload, in every well-formed
+   (hence every reachable: C10_reachable_worlds_are_well_formed) world *)
+Theorem C20_available : forall me d w, WfR (get_radio w me) ->
+  exists d' w', l_available (WB me) d w = (Ok (negb (match rx_fifo (get_radio w me) with [] => true | _ => false end)), d', w').
+Proof. exact l_available_spec. Qed.
+Print Assumptions C20_available.
